@@ -1,8 +1,9 @@
 #!/bin/bash
 # ./check.sh <CXX> [quick|thorough]   |   ./check.sh setup   |   ./check.sh replay <file>
 cd "$(dirname "$0")"
+HERE="$(pwd)"
 export VIROCON_REPO="${VIROCON_REPO:-/repo}"
-export PYTHONPATH="$VIROCON_REPO:/verif/tools:/verif/tools/lib"
+export PYTHONPATH="$VIROCON_REPO:$HERE/tools:$HERE/tools/lib"
 export PYTHONHASHSEED=0 MPLBACKEND=Agg PYTHONWARNINGS=ignore PYTHONDONTWRITEBYTECODE=1
 export OMP_NUM_THREADS=1 OPENBLAS_NUM_THREADS=1 MKL_NUM_THREADS=1
 export VIROCON_VERIF=1
